@@ -1014,7 +1014,7 @@ func cmdReplay(args []string) int {
 	r := recs[0]
 	fmt.Printf("replay %s: result=%s steps=%d digest=%s\n", filepath.Base(path), r.Result, r.Steps, r.Digest)
 	for _, f := range r.Failures {
-		fmt.Printf("  rule=%s step=%d vtime=%dns %s\n    %s\n", f.Rule, f.Step, f.VTime, f.G, f.Msg)
+		fmt.Printf("  rule=%s step=%d vtime=%dns %s tags=%v\n    %s\n", f.Rule, f.Step, f.VTime, f.G, f.Tags, f.Msg)
 		if f.Stack != "" {
 			fmt.Println(f.Stack)
 		}
